@@ -29,13 +29,13 @@ def fns(file, fl, self_ty="", trait="", extra="", header=""):
 
 def fn(name, ret="", requires=(), ensures=(), mode="verify", closures=None, loops=None, subst=None,
        attrs="", proof_prologue="", proof_epilogue="", iter_loops=None, label="", opaque_quotes=(), tail_from="", tail_call="", method_helpers=None, chain_helpers=None,
-       block_call_from="", block_call=""):
+       block_call_from="", block_call="", stmt_calls=None):
     return {"name": name, "ret": ret, "requires": list(requires), "ensures": list(ensures),
             "mode": mode, "closures": closures or {}, "loops": loops or {}, "subst": subst or [],
             "attrs": attrs, "proof_prologue": proof_prologue, "proof_epilogue": proof_epilogue,
             "iter_loops": iter_loops or {}, "label": label, "opaque_quotes": list(opaque_quotes),
             "tail_from": tail_from, "tail_call": tail_call, "method_helpers": method_helpers or {}, "chain_helpers": chain_helpers or {},
-            "block_call_from": block_call_from, "block_call": block_call}
+            "block_call_from": block_call_from, "block_call": block_call, "stmt_calls": stmt_calls or {}}
 
 
 def table(what, file, name):
@@ -1154,6 +1154,21 @@ pub open spec fn chains_ok(bs: Seq<ActionExprChain>) -> bool {
                                  # ... it is set afterwards, and it was not set before (a second occurrence is an error)
                                  "r is Ok && input.peeks(%d) ==> r->Ok_0.%s is Some && join.%s is None" % (kid, field, field),
                              ])})
+    # ---- `<JoinInputDefault as Parse>::parse` as a WHOLE (R15 statement call-outs for the four option blocks, tail call-out for the
+    # branch / handler loop; each twin is verified above from the same bytes): whatever the options, a successful parse
+    # hands over at least one branch and only chains the builder accepted
+    u.append(fns(F_BUILDER, [fn("new", "r", label="ActionExprChainBuilder::new", ensures=["r.group_determiners == group_determiners", "r.deferred_determiner == deferred_determiner", "r.wrapper_determiner == wrapper_determiner"])],
+                 self_ty="ActionExprChainBuilder", header="impl<'a> ActionExprChainBuilder<'a>"))
+    u.append(fns(F_PARSE, [fn("parse", "r", label="JoinInputDefault::parse",
+        ensures=["r is Ok ==> r->Ok_0.branches@.len() >= 1 && chains_ok(r->Ok_0.branches@)"],
+        stmt_calls={"if input.peek(keywords::%s)" % kw: "join = Self::parse_option_%s_w(input, join)?;" % kw for kw, _, _, _ in OPTS},
+        tail_from="while !input.is_empty()", tail_call="Self::parse_branches(input, join, action_expr_chain_builder)",
+        loops={"0": {"invariant": ["join.branches@.len() == 0"]}},
+        subst=[{"find": "for _ in 0..4", "replace": "for _i in 0..4", "why": "Verus wants a named loop variable (unused)"},
+               {"find": "DEFAULT_GROUP_DETERMINERS,", "replace": "default_group_determiners(),", "why": "the constant as an opaque value (its rows are the R9 table `determiners`)"},
+               {"find": "DEFERRED_DETERMINER,", "replace": "deferred_determiner(),", "why": "the constant as an opaque value"},
+               {"find": "WRAPPER_DETERMINER,", "replace": "wrapper_determiner(),", "why": "the constant as an opaque value"}],
+    )], self_ty="JoinInputDefault", trait="Parse", header="impl JoinInputDefault"))
     return u
 
 
@@ -1407,13 +1422,13 @@ OBLIGATIONS = {
     "C05": [("top", "generate_join"), ("top", "JoinOutput::new"), ("steps", "JoinOutput::join_steps"), ("steps", "lemma_join_comma"), ("steps", "lemma_count_take_step"), ("gen", "JoinOutput::generate_results_transposer"), ("parse", "parse_until_suffix"), ("parse", "ActionGroup::parse_stream"),
             ("core", "ActionGroup::to_wrapper_action_expr"), ("core", "ActionGroup::new"), ("core", "ExprGroup::application_type")],
     "C12": [("sep", "JoinOutput::separate_block_expr_process"), ("sep", "JoinOutput::separate_block_expr_err"), ("sep", "JoinOutput::separate_block_expr_initial"), ("sep", "lemma_sep_step"), ("steps", "JoinOutput::join_steps"), ("steps", "lemma_join_comma"), ("steps", "lemma_count_take_step"), ("builder", "ActionExprChainBuilder::build_from_parse_stream"), ("builder", "ActionExprChain::set_id"), ("builder", "ActionExprChain::new"), ("gen", "JoinOutput::branch_result_name"), ("gen", "JoinOutput::branch_result_pat")],
-    "C15": [("parse", "ParseUntil::scan_step"), ("builder", "ActionExprChainBuilder::parse_unit"), ("builder", "JoinInputDefault::parse_branches"), ("top", "generate_join"), ("top", "JoinOutput::new"), ("top", "JoinOutput::new_fields"), ("top", "lemma_new_fields"), ("steps", "JoinOutput::generate_steps"), ("gen", "lemma_split_balance"), ("gen", "lemma_accepted_chain_never_underflows"), ("gen", "lemma_split_members"), ("gen", "lemma_accepted_branch"), ("builder", "lemma_member_ok"), ("builder", "lemma_unwrap_only_from_unwrap"), ("gen", "JoinOutput::split_branch_steps"), ("gen", "JoinOutput::generate_step_branch"), ("parse", "parse_until_suffix"), ("builder", "ActionExprChainBuilder::build_from_parse_stream"), ("builder", "ActionExprChain::append_member"),
+    "C15": [("builder", "JoinInputDefault::parse"), ("builder", "ActionExprChainBuilder::new"), ("parse", "ParseUntil::scan_step"), ("builder", "ActionExprChainBuilder::parse_unit"), ("builder", "JoinInputDefault::parse_branches"), ("top", "generate_join"), ("top", "JoinOutput::new"), ("top", "JoinOutput::new_fields"), ("top", "lemma_new_fields"), ("steps", "JoinOutput::generate_steps"), ("gen", "lemma_split_balance"), ("gen", "lemma_accepted_chain_never_underflows"), ("gen", "lemma_split_members"), ("gen", "lemma_accepted_branch"), ("builder", "lemma_member_ok"), ("builder", "lemma_unwrap_only_from_unwrap"), ("gen", "JoinOutput::split_branch_steps"), ("gen", "JoinOutput::generate_step_branch"), ("parse", "parse_until_suffix"), ("builder", "ActionExprChainBuilder::build_from_parse_stream"), ("builder", "ActionExprChain::append_member"),
             ("builder", "lemma_append_facts"), ("builder", "lemma_balanced_depth"),
             ("gen", "JoinOutput::wrap_last_step_stream"), ("gen", "JoinOutput::process_step_action_expr"),
             ("gen", "JoinOutput::generate_def_and_step_streams"), ("gen", "JoinOutput::expand_process_expr"),
             ("core", "ProcessExpr::to_tokens")],
     "C14": [("parse", "GroupDeterminer::check_parsed"), ("parse", "is_valid_stream"), ("parse", "GroupDeterminer::combinator"), ("parse", "ParseUntil::scan_step"), ("parse", "parse_until_suffix"), ("det", "lemma_first_match_is_longest"), ("optable", "lemma_operator_tables")],
-    "C16": [("top", "join_impl"), ("builder", "JoinInputDefault::parse_option_futures_crate_path"), ("builder", "JoinInputDefault::parse_option_custom_joiner"), ("builder", "JoinInputDefault::parse_option_transpose_results"), ("builder", "JoinInputDefault::parse_option_lazy_branches"), ("builder", "JoinInputDefault::parse_branches"), ("top", "generate_join"), ("top", "jo_into_token_stream"), ("top", "ji_futures_crate_path"), ("top", "ji_branches"), ("top", "ji_handler"), ("top", "ji_joiner"), ("top", "ji_transpose_results_option"), ("top", "ji_lazy_branches_option"), ("top", "JoinOutput::new"), ("gen", "JoinOutput::generate_handle"), ("gen", "JoinOutput::generate_step_branch"), ("steps", "JoinOutput::generate_step_tail"), ("guards", "new_init_lazy_branches"), ("guards", "new_init_transpose")],
+    "C16": [("builder", "JoinInputDefault::parse"), ("top", "join_impl"), ("builder", "JoinInputDefault::parse_option_futures_crate_path"), ("builder", "JoinInputDefault::parse_option_custom_joiner"), ("builder", "JoinInputDefault::parse_option_transpose_results"), ("builder", "JoinInputDefault::parse_option_lazy_branches"), ("builder", "JoinInputDefault::parse_branches"), ("top", "generate_join"), ("top", "jo_into_token_stream"), ("top", "ji_futures_crate_path"), ("top", "ji_branches"), ("top", "ji_handler"), ("top", "ji_joiner"), ("top", "ji_transpose_results_option"), ("top", "ji_lazy_branches_option"), ("top", "JoinOutput::new"), ("gen", "JoinOutput::generate_handle"), ("gen", "JoinOutput::generate_step_branch"), ("steps", "JoinOutput::generate_step_tail"), ("guards", "new_init_lazy_branches"), ("guards", "new_init_transpose")],
     "C17": [("sep", "is_block_expr"), ("sep", "JoinOutput::separate_block_expr_process"), ("sep", "JoinOutput::separate_block_expr_err"), ("sep", "JoinOutput::separate_block_expr_initial"), ("sep", "lemma_sep_step")] + [("names", "lemma_names_never_clash"), ("names", "lemma_names_table"), ("names", "lemma_name3_injective"), ("names", "lemma_name1_injective"), ("names", "lemma_distinguishable"), ("names", "lemma_names_strlits"), ("gen", "JoinOutput::generate_def_and_step_streams")] + [("core", n) for n in ['construct_var_name', 'construct_step_results_name', 'construct_result_name', 'construct_thread_builder_name', 'construct_inspect_fn_name', 'construct_spawn_tokio_fn_name', 'construct_results_name', 'construct_handler_name', 'construct_internal_value_name', 'construct_thread_builder_fn_name', 'construct_expr_wrapper_name']],
     "C20": [("core", n) for n in ['construct_var_name', 'construct_step_results_name', 'construct_result_name', 'construct_thread_builder_name', 'construct_inspect_fn_name', 'construct_spawn_tokio_fn_name', 'construct_results_name', 'construct_handler_name', 'construct_internal_value_name', 'construct_thread_builder_fn_name', 'construct_expr_wrapper_name']],
     # every operand (expression or type) is printed exactly once, in its written position
